@@ -135,6 +135,10 @@ func (g *optGen) statement(d int) string {
 	case 9:
 		return "foreach v in [" + e() + ", " + e() + "] { r = v; if (" + g.cond(1) + ") { return v; } }\n"
 	case 10:
+		if g.c.Bool() {
+			// control flow that joins inside a function body, then constants
+			return "function f" + fmt.Sprint(g.c.Intn(2)) + "(a) { t = (" + g.cond(1) + " ? " + g.noTernary(1) + " : " + g.noTernary(1) + ") " + optBin[g.c.Intn(len(optBin))] + " " + g.intAtom() + "; if (a ? false : true) { return " + g.intAtom() + " + " + g.intAtom() + "; } return t + " + e() + "; }\n"
+		}
 		return "function f" + fmt.Sprint(g.c.Intn(2)) + "(a) { if (" + g.cond(1) + ") { return " + e() + "; } return a + " + g.noTernary(1) + "; }\n"
 	case 11:
 		return "r = f" + fmt.Sprint(g.c.Intn(2)) + "(" + e() + ");\n"
@@ -148,8 +152,23 @@ func (g *optGen) statement(d int) string {
 	return "r = r + " + e() + ";\n"
 }
 
+// statement10 defines both functions with control flow that joins inside them.
+func (g *optGen) statement10() string {
+	var b strings.Builder
+	for f := 0; f < 2; f++ {
+		fmt.Fprintf(&b, "function f%d(a) { t = (a ? %s : %s) %s %s; if (a ? false : true) { return %s + %s; } return t + %s; }\n", f,
+			g.noTernary(1), g.noTernary(1), optBin[g.c.Intn(len(optBin))], g.intAtom(), g.intAtom(), g.intAtom(), g.noTernary(1))
+	}
+	return b.String()
+}
+
 func (g *optGen) script() string {
 	var b strings.Builder
+	if g.c.Intn(8) == 1 {
+		// nothing for the optimizer at top level, everything inside functions
+		g.n = 0
+		return g.statement10() + "return f0(x) == f1(F);\n"
+	}
 	b.WriteString("r = 0;\n")
 	for n := 1 + g.c.Intn(5); n > 0; n-- {
 		g.n = 0
